@@ -814,3 +814,59 @@ def mon_capi(case, obs):
                 return 'keyboard bytes handed to the pollers %s (+ pending %s): the firmware sends 02 12 exactly once' % (polled[1], post['ports'][1]['txq'])
         return None
     return None
+
+
+# ----------------------------------------------------------------------------- C01
+
+def mon_sys(case, obs):
+    toks = case.split()[1:]
+    if not toks or toks[0] != 'S':
+        out, fin = split_obs(obs)
+        if any(o == 'p' for o in out):
+            return 'host panic while running the firmware'
+        return None
+    ops = toks[1:]
+    out, fin = split_obs(obs)
+    if any(o == 'p' for o in out):
+        return 'host-side failure (panic) at op %d (%s)' % (out.index('p'), ops[out.index('p')] if out.index('p') < len(ops) else '?')
+    if len(out) < len(ops):
+        return None
+    keys = [int(x, 16) for x in ops[-1][2:].split(',')] if ops[-1].startswith('X:') else []
+    # the LAST boot in the case is the one that is judged
+    bts = [i for i, o in enumerate(ops) if o.startswith('bt:')]
+    for i in bts:
+        if out[i] == 'bx':
+            return 'firmware did not reach the interactive state (priority level 0) within the step budget'
+    b = bts[-1]
+    dk = ops.index('dk', b)
+    kb = out[dk]
+    if kb != 't2,12':
+        return 'keyboard initialisation bytes after boot are %s (expected 02 12)' % kb
+    vr0 = ops.index('vr', b)
+    frame0 = out[vr0]
+    if frame0.split('.')[1] == '0':
+        return 'the display window is blank after boot'
+    das = [i for i, o in enumerate(ops) if o == 'da' and i > b]
+    echoed = [int(x, 16) for x in out[das[0]][1:].split(',') if x]
+    if echoed != keys:
+        return 'keys typed %s, transmitted on RS-232 %s' % (['%x' % k for k in keys], ['%x' % k for k in echoed])
+    # frame unchanged by typing (no local echo), then every printable byte changes the frame and sets dirty
+    prev = None
+    i = das[0] + 1
+    while i < len(ops):
+        if ops[i] == 'vr' and prev is None:
+            prev = out[i]
+        elif ops[i].startswith('qa:'):
+            j = ops.index('vd', i)
+            kk = ops.index('vr', j)
+            if out[j] != 'd1':
+                return 'printable byte %s was not reported dirty' % ops[i]
+            if out[kk] == prev:
+                return 'printable byte %s did not change the display window' % ops[i]
+            prev = out[kk]
+            i = kk
+        i += 1
+    extra = [x for x in out[das[-1]][1:].split(',') if x]
+    if len(das) > 1 and extra:
+        return 'bytes %s were transmitted on RS-232 although no key was typed' % extra
+    return None
